@@ -417,7 +417,7 @@ def _membership(v: ast.AST, param: str):
         return _membership(v.args[0], param)
     # SymPy assumption queries on the factor itself: exact (magnitude independent) predicates
     if isinstance(v, ast.Attribute) and dotted(v.value) == param:
-        table = {"is_zero": {"S.Zero"}, "is_infinite": {"S.Infinity", "S.NegativeInfinity"}}
+        table = {"is_zero": {"S.Zero"}, "is_infinite": {"S.Infinity", "S.NegativeInfinity", "S.ComplexInfinity"}}
         if v.attr in table:
             return set(table[v.attr])
     if isinstance(v, ast.Compare) and len(v.ops) == 1 and isinstance(v.ops[0], (ast.Is, ast.Eq)) and dotted(v.left) == param and dotted(v.comparators[0]) in ("S.NaN", "nan"):
@@ -432,12 +432,12 @@ def _membership(v: ast.AST, param: str):
 
 
 def _k5(run: Run, w: World) -> None:
-    run.rule("K5", "is_any_dimension tests exact membership in {0, +oo, -oo, NaN}: no numeric conversion or ordering comparison of the factor")
+    run.rule("K5", "is_any_dimension tests exact membership in {0, +oo, -oo, zoo, NaN}: no numeric conversion or ordering comparison of the factor")
     f = Fn(w, MISC, "is_any_dimension")
     rets = f.cfg.returns()
     run.require(len(rets) >= 1 and len(f.params) == 1, "is_any_dimension shape changed")
     p = f.params[0]
-    want = {"S.Zero", "S.Infinity", "S.NegativeInfinity", "S.NaN"}
+    want = {"S.Zero", "S.Infinity", "S.NegativeInfinity", "S.ComplexInfinity", "S.NaN"}  # every zero, every infinity (1/0 of quantities is zoo), NaN
     accepted: set = set()
     undecided = []
     for r in rets:
